@@ -257,7 +257,7 @@ def judge_result(ctx, r):
 
 
 def write_replay(ctx, sig, m):
-    d = os.path.join(VERIF, "replays", ctx.pid)
+    d = os.path.join(VERIF, "replays", ctx.pid) if REPO == "/repo" else os.path.join(VERIF, ".work", "alt-replays", ctx.pid)
     os.makedirs(d, exist_ok=True)
     h = hashlib.sha1((sig + json.dumps(m, sort_keys=True, default=str)).encode()).hexdigest()[:12]
     p = os.path.join(d, "%s.json" % h)
@@ -300,6 +300,9 @@ def finish(ctx, level, coverage, assumptions):
               assumptions=assumptions, wall_s=round(time.time() - ctx.t0, 1), violations=len(vseen))
     # extension checks (ids X..: behaviour beyond the listed properties) keep their evidence apart
     evdir = os.path.join(VERIF, "evidence", "extra") if ctx.pid.startswith("X") else os.path.join(VERIF, "evidence")
+    if REPO != "/repo":
+        # a run against a scratch copy (seeded changes, candidate fixes) never touches the evidence of /repo
+        evdir = os.path.join(VERIF, ".work", "alt-evidence")
     os.makedirs(evdir, exist_ok=True)
     tmp = os.path.join(evdir, ".%s.json.tmp%d" % (ctx.pid, os.getpid()))
     json.dump(ev, open(tmp, "w"), indent=1, default=str)
